@@ -16,6 +16,453 @@ def dump(g):
             "imp": np.asarray(g.improper).reshape(-1).astype(int).tolist()}
 
 
+# ====================================================================== property oracle (mode "oracle")
+# Run by tools/props/C03.py on every check (NOT cached with the Coq data): numpy brute-force checks of the property
+# on entry points / histories the dump below does not reach.  Emits {"fails": [...], "strata": {...}}.
+fails = []
+strata = {}
+
+
+def st(k, n=1):
+    strata[k] = strata.get(k, 0) + n
+
+
+def fail(sig, what, rep):
+    fails.append({"sig": sig, "what": what, "replay": rep})
+
+
+def qmat(q, imp):
+    """3x3 matrix of a unit quaternion by the textbook formula (independent of orix), negated when improper"""
+    a, b, c, d = [float(x) for x in q]
+    M = np.array([[a * a + b * b - c * c - d * d, 2 * (b * c - a * d), 2 * (b * d + a * c)],
+                  [2 * (b * c + a * d), a * a - b * b + c * c - d * d, 2 * (c * d - a * b)],
+                  [2 * (b * d - a * c), 2 * (c * d + a * b), a * a - b * b - c * c + d * d]])
+    return -M if imp else M
+
+
+def mats(g):
+    """(n, 3, 3) array of the operations of a Symmetry"""
+    return np.array([qmat(q, i) for q, i in zip(np.asarray(g.data, float).reshape(-1, 4), np.asarray(g.improper).reshape(-1))]
+                    ).reshape(-1, 3, 3)
+
+
+def _dist(Ms, Ns):
+    Ms, Ns = np.asarray(Ms, float).reshape(-1, 3, 3), np.asarray(Ns, float).reshape(-1, 3, 3)
+    return np.abs(Ms[:, None] - Ns[None]).max(axis=(2, 3))
+
+
+def subset(Ms, Ns, tol=1e-7):
+    Ms, Ns = np.asarray(Ms, float).reshape(-1, 3, 3), np.asarray(Ns, float).reshape(-1, 3, 3)
+    if len(Ms) == 0:
+        return True
+    if len(Ns) == 0:
+        return False
+    return bool(np.all(_dist(Ms, Ns).min(axis=1) < tol))
+
+
+def mem(M, Ms, tol=1e-7):
+    return subset(np.asarray(M, float).reshape(1, 3, 3), Ms, tol)
+
+
+def nodup(Ms, tol=1e-7):
+    Ms = np.asarray(Ms, float).reshape(-1, 3, 3)
+    return len(Ms) == 0 or bool(np.all((_dist(Ms, Ms) < tol).sum(axis=1) == 1))
+
+
+def seteq(Ms, Ns):
+    return subset(Ms, Ns) and subset(Ns, Ms)
+
+
+def dets(Ms):
+    return np.linalg.det(np.asarray(Ms, float).reshape(-1, 3, 3))
+
+
+def with_inversion(Ms):
+    """the set extended by inversion (each operation once)"""
+    Ms = np.asarray(Ms, float).reshape(-1, 3, 3)
+    extra = [-A for A in Ms if not mem(-A, Ms)]
+    return np.concatenate([Ms, np.array(extra).reshape(-1, 3, 3)])
+
+
+def proper_part(Ms):
+    Ms = np.asarray(Ms, float).reshape(-1, 3, 3)
+    return Ms[dets(Ms) > 0]
+
+
+def gjson(g):
+    return {"name": getattr(g, "name", None), "q": np.asarray(g.data, float).reshape(-1, 4).round(9).tolist(),
+            "improper": np.asarray(g.improper).reshape(-1).astype(int).tolist()}
+
+
+ORDER = {"1": 1, "-1": 2, "211": 2, "121": 2, "112": 2, "2": 2, "m11": 2, "1m1": 2, "11m": 2, "m": 2, "2/m": 4,
+         "222": 4, "mm2": 4, "mmm": 8, "4": 4, "-4": 4, "4/m": 8, "422": 8, "4mm": 8, "-42m": 8, "4/mmm": 16,
+         "3": 3, "-3": 6, "321": 6, "312": 6, "32": 6, "3m": 6, "-3m": 12, "6": 6, "-6": 6, "6/m": 12, "622": 12,
+         "6mm": 12, "-6m2": 12, "6/mmm": 24, "23": 12, "m-3": 24, "432": 24, "-43m": 24, "m-3m": 48}
+I3 = np.eye(3)
+
+
+def named_objects():
+    """the 38 groups of _groups plus the module-level aliases 2 (C2) and m (Cs) that get_point_group hands out"""
+    objs = list(S._groups)
+    for x in (S.C2, S.Cs):
+        if not any(x is y for y in objs):
+            objs.append(x)
+    return objs
+
+
+def incl_names(Ms, proper_only=False):
+    out = []
+    for h in S._groups:
+        Hs = mats(h)
+        if subset(Hs, Ms) and (not proper_only or bool(np.all(dets(Hs) > 0))):
+            out.append(h.name)
+    return out
+
+
+def check_plain(g, tag):
+    """all clauses of the first sentence of the property for one named object, by numpy brute force"""
+    nm = g.name
+    rep = {"group": nm, "pass": tag, "how": "orix.quaternion.symmetry: the module-level group of that name"}
+    Ms = mats(g)
+    st("np-group")
+    ok = (len(Ms) > 0 and nodup(Ms) and mem(I3, Ms) and subset(np.einsum("aij,bjk->abik", Ms, Ms), Ms)
+          and subset(np.transpose(Ms, (0, 2, 1)), Ms) and bool(np.all(np.abs(np.abs(dets(Ms)) - 1) < 1e-9)))
+    if not (ok and len(Ms) == int(g.order) == int(g.size) == ORDER.get(nm, -1)):
+        fail(f"np-group:{nm}", f"named point group {nm} is not a finite group of the order its name denotes "
+             f"(identity/closure/inverse/duplicates/order; {len(Ms)} operations, order={g.order})", dict(rep, got=gjson(g)))
+    Lref = with_inversion(Ms)
+    Pref = proper_part(Ms)
+    st("np-laue")
+    L = g.laue
+    LM = mats(L)
+    if not (seteq(LM, Lref) and nodup(LM)):
+        fail(f"np-laue:{nm}", f"Laue group of {nm} is not the group extended by inversion", dict(rep, got=gjson(L)))
+    st("np-proper-subgroup")
+    Pg = g.proper_subgroup
+    PM = mats(Pg)
+    if not (seteq(PM, Pref) and nodup(PM) and not np.any(Pg.improper)):
+        fail(f"np-proper-subgroup:{nm}", f"proper subgroup of {nm} is not exactly its proper operations", dict(rep, got=gjson(Pg)))
+    st("np-laue-proper-subgroup")
+    LP = g.laue_proper_subgroup
+    LPM = mats(LP)
+    if not (seteq(LPM, proper_part(Lref)) and nodup(LPM) and not np.any(LP.improper)):
+        fail(f"np-laue-proper-subgroup:{nm}", f"proper subgroup of the Laue group of {nm} is not exactly the proper operations "
+             "of the group extended by inversion", dict(rep, got=gjson(LP)))
+    st("np-queries")
+    if bool(g.contains_inversion) != mem(-I3, Ms):
+        fail(f"np-contains-inversion:{nm}", f"contains_inversion of {nm} disagrees with membership of the inversion",
+             dict(rep, got=bool(g.contains_inversion)))
+    if bool(g.is_proper) != (len(Pref) == len(Ms)):
+        fail(f"np-is-proper:{nm}", f"is_proper of {nm} disagrees with its operations", dict(rep, got=bool(g.is_proper)))
+    got, want = [h.name for h in g.subgroups], incl_names(Ms)
+    if got != want:
+        fail(f"np-subgroups:{nm}", f"subgroups of {nm} disagree with set inclusion over the named groups", dict(rep, got=got, want=want))
+    got, want = [h.name for h in g.proper_subgroups], incl_names(Ms, True)
+    if got != want:
+        fail(f"np-proper-subgroups:{nm}", f"proper_subgroups of {nm} disagree with set inclusion over the proper named groups",
+             dict(rep, got=got, want=want))
+
+
+def check_chain(g, tag):
+    """queries asked of the DERIVED groups (Laue group, proper subgroup, Laue proper subgroup) of a named group: the
+    derived objects carry class names ('2/m', '-3m', '32' ...) that other, differently oriented named groups also carry"""
+    nm = g.name
+    rep = {"group": nm, "pass": tag}
+    Ms = mats(g)
+    Lref = with_inversion(Ms)
+    L = g.laue
+    LM = mats(L)
+    st("chain-laue")
+    bad = []
+    if not bool(L.contains_inversion):
+        bad.append("laue.contains_inversion is False")
+    if bool(L.is_proper):
+        bad.append("laue.is_proper is True")
+    if [h.name for h in L.subgroups] != incl_names(Lref):
+        bad.append(f"laue.subgroups = {[h.name for h in L.subgroups]} but set inclusion gives {incl_names(Lref)}")
+    if not seteq(mats(L.proper_subgroup), proper_part(Lref)):
+        bad.append("laue.proper_subgroup is not the proper operations of the Laue group")
+    if not seteq(mats(L.laue), Lref):
+        bad.append("laue.laue differs from the Laue group")
+    if not seteq(LM, Lref):
+        bad.append("laue is not the group extended by inversion")
+    if bad:
+        fail(f"chain-laue:{nm}", f"queries on the Laue group of {nm} disagree with its operations: " + "; ".join(bad),
+             dict(rep, laue=gjson(L), how=f"L = <group {nm}>.laue; L.contains_inversion / is_proper / subgroups / proper_subgroup / laue"))
+    st("chain-proper")
+    Pref = proper_part(Ms)
+    Pg = g.proper_subgroup
+    bad = []
+    if not bool(Pg.is_proper):
+        bad.append("proper_subgroup.is_proper is False")
+    if bool(Pg.contains_inversion):
+        bad.append("proper_subgroup.contains_inversion is True")
+    if [h.name for h in Pg.subgroups] != incl_names(Pref):
+        bad.append(f"proper_subgroup.subgroups = {[h.name for h in Pg.subgroups]} but set inclusion gives {incl_names(Pref)}")
+    if not seteq(mats(Pg.laue), with_inversion(Pref)):
+        bad.append("proper_subgroup.laue is not the proper subgroup extended by inversion")
+    LP = g.laue_proper_subgroup
+    if not (bool(LP.is_proper) and seteq(mats(LP.laue), Lref)):
+        bad.append("laue_proper_subgroup is not proper or its Laue group is not the Laue group")
+    if bad:
+        fail(f"chain-proper:{nm}", f"queries on the proper subgroup / Laue proper subgroup of {nm} disagree with its operations: "
+             + "; ".join(bad), dict(rep, proper_subgroup=gjson(Pg), how=f"P = <group {nm}>.proper_subgroup; P.is_proper / "
+                                    "contains_inversion / subgroups / laue / proper_subgroup"))
+
+
+LATTICE_MODES = ["ctor", "structure-setter", "rotated-base", "space-group-last", "cif"]
+
+
+def rand_lattice(system, R):
+    a, b, c = (round(R.uniform(2.0, 9.0), 3) for _ in range(3))
+    if system == "triclinic":
+        while True:
+            al, be, ga = (round(R.uniform(65, 115), 2) for _ in range(3))
+            ca, cb, cg = (np.cos(np.deg2rad(x)) for x in (al, be, ga))
+            if 1 - ca * ca - cb * cb - cg * cg + 2 * ca * cb * cg > 0.2 and min(abs(al - 90), abs(be - 90), abs(ga - 90)) > 3:
+                return a, b, c, al, be, ga
+    if system == "monoclinic":            # diffpy's monoclinic space groups are in the unique-axis-b setting
+        return a, b, c, 90, round(R.uniform(95, 125), 2), 90
+    if system == "orthorhombic":
+        return a, b, c, 90, 90, 90
+    if system == "tetragonal":
+        return a, a, c, 90, 90, 90
+    if system in ("trigonal", "hexagonal"):   # diffpy's rhombohedral groups are in hexagonal axes
+        return a, a, c, 90, 90, 120
+    return a, a, a, 90, 90, 90
+
+
+def rand_rotmat(R):
+    from common import rand_unit_quat
+    return qmat(rand_unit_quat(R), False)
+
+
+def lattice_stratum(R, modes_per_group):
+    """second sentence of the property on REAL lattices: the phase's frame is read from phase.structure.lattice.base
+    (rows a, b, c in Cartesian coordinates) after the Phase realigned it; the rotational parts W of the space group's
+    operations (diffpy) are carried into that frame, R = B^T W B^-T, and compared as a set with the point group"""
+    import os
+    from diffpy.structure import Atom, Lattice, Structure
+    from orix.vector import Miller
+    for n in range(1, 231):
+        spg = GetSpaceGroup(n)
+        system = spg.crystal_system.lower()
+        Ws = []
+        for op in spg.iter_symops():
+            W = np.rint(np.asarray(op.R)).astype(int)
+            if not any(np.array_equal(W, X) for X in Ws):
+                Ws.append(W)
+        for j in range(modes_per_group):
+            mode = LATTICE_MODES[(n + j) % len(LATTICE_MODES)]
+            abc = rand_lattice(system, R)
+            rep = {"space_group": n, "mode": mode, "lattice_abcABG": list(abc)}
+            st("lattice:" + mode)
+            try:
+                lat = Lattice(*abc)
+                if mode == "ctor":
+                    ph = Phase(space_group=n, structure=Structure(atoms=[Atom("Al", [0.1, 0.2, 0.3])], lattice=lat))
+                elif mode == "structure-setter":
+                    ph = Phase(space_group=n)
+                    ph.structure = Structure(lattice=lat)
+                elif mode == "rotated-base":      # the same lattice handed over in an arbitrary orientation
+                    Q = rand_rotmat(R)
+                    rep["base_rotation"] = Q.round(9).tolist()
+                    ph = Phase(space_group=GetSpaceGroup(n), structure=Structure(lattice=Lattice(base=lat.base @ Q)))
+                elif mode == "space-group-last":
+                    ph = Phase(structure=Structure(lattice=lat), point_group="1")
+                    ph.space_group = n
+                else:
+                    path = os.path.join(os.getcwd(), "c03_oracle.cif")
+                    with open(path, "w") as f:
+                        f.write("data_t\n_cell_length_a %r\n_cell_length_b %r\n_cell_length_c %r\n_cell_angle_alpha %r\n"
+                                "_cell_angle_beta %r\n_cell_angle_gamma %r\n_symmetry_Int_Tables_number %d\nloop_\n"
+                                "_atom_site_label\n_atom_site_type_symbol\n_atom_site_fract_x\n_atom_site_fract_y\n"
+                                "_atom_site_fract_z\nAl1 Al 0.1 0.2 0.3\n" % (abc + (n,)))
+                    ph = Phase.from_cif(path)
+                    rep["cif"] = open(path).read()
+                B = np.asarray(ph.structure.lattice.base, float)
+                got_abc = ph.structure.lattice.abcABG()
+                a_ax = Miller(uvw=[1, 0, 0], phase=ph).unit.data.reshape(3)
+                cr_ax = Miller(hkl=[0, 0, 1], phase=ph).unit.data.reshape(3)
+                pg = ph.point_group
+                sgno = ph.space_group.number
+            except Exception as e:  # noqa
+                fail("lattice:exception:" + mode, f"building a phase of space group {n} with a lattice of its crystal system raised "
+                     f"{type(e).__name__}: {e}", rep)
+                continue
+            rep["base"] = B.round(9).tolist()
+            cstar = np.cross(B[0], B[1])
+            frame_ok = (np.allclose(B[0] / np.linalg.norm(B[0]), [1, 0, 0], atol=1e-9)
+                        and np.allclose(cstar / np.linalg.norm(cstar), [0, 0, 1], atol=1e-9)
+                        and np.linalg.det(B) > 0 and np.allclose(got_abc, abc, atol=1e-7)
+                        and np.allclose(a_ax, [1, 0, 0], atol=1e-9) and np.allclose(cr_ax, [0, 0, 1], atol=1e-9))
+            if not frame_ok:
+                fail("lattice:frame:" + mode, f"crystal frame of a phase of space group {n} is not a along e1 / c* along e3 "
+                     "(right-handed, lattice parameters kept)", dict(rep, abcABG=list(map(float, got_abc)), a_axis=a_ax.tolist(),
+                                                                      cr_axis=cr_ax.tolist()))
+                continue
+            if sgno != n:
+                fail("lattice:space-group:" + mode, f"phase built for space group {n} reports space group {sgno}", rep)
+                continue
+            Bt = B.T
+            Rs = [Bt @ W @ np.linalg.inv(Bt) for W in Ws]
+            if not (pg is not None and seteq(mats(pg), Rs) and len(Rs) == pg.size):
+                # same signature as the correspondence-side check of get_point_group(n): the 50 listed space groups are
+                # the known finding, any other number is a violation
+                fail(f"sg:{n}", f"point group assigned to a phase of space group {n} ({mode}) is not the set of rotational parts of "
+                     "its symmetry operations in the phase's Cartesian crystal frame (real lattice)",
+                     dict(rep, point_group=None if pg is None else gjson(pg)))
+
+
+def same_group(a, b):
+    return bool(a is not None and b is not None and a.shape == b.shape and np.allclose(a.data, b.data)
+                and np.array_equal(a.improper, b.improper))
+
+
+def phaselist_stratum(R):
+    """secondary routes by which a phase gets / hands out its point group: PhaseList(space_groups=...) with numbers and
+    SpaceGroup objects, PhaseList from a list / dict of phases, indexing by id / name / slice / tuple, add(), deepcopy(),
+    CrystalMap.phases, CrystalMap[...].phases_in_data, CrystalMap.orientations.symmetry"""
+    from orix.crystal_map import CrystalMap, PhaseList
+    from orix.quaternion import Rotation
+    nums = list(range(1, 231))
+    R.shuffle(nums)
+    gnames = [g.name for g in S._groups]      # "2" and "m" (aliases handed out for monoclinic space groups) are not among them
+    for k in range(0, 230, 10):
+        chunk = nums[k:k + 10]
+        names = [f"p{n}" for n in chunk]
+        rep = {"space_groups": chunk, "names": names}
+
+        def cmp(route, seq, how, ns=None):
+            st("phaselist:" + route)
+            ns = chunk if ns is None else ns
+            seq = list(seq)
+            if len(seq) != len(ns):
+                fail("phaselist:" + route, f"{how}: {len(seq)} point groups for {len(ns)} phases", dict(rep))
+                return
+            for n, got in zip(ns, seq):
+                if not same_group(got, get_point_group(n)):
+                    fail("phaselist:" + route, f"point group obtained by {how} for a phase of space group {n} differs from "
+                         f"get_point_group({n})", dict(rep, n=n, got=None if got is None else gjson(got)))
+                    break
+        try:
+            sgs_in = [n if i % 2 == 0 else GetSpaceGroup(n) for i, n in enumerate(chunk)]
+            pl = PhaseList(space_groups=sgs_in, names=names)
+            cmp("point_groups", pl.point_groups, "PhaseList(space_groups=[numbers and SpaceGroup objects]).point_groups")
+            cmp("getitem-id", [pl[i].point_group for i in range(10)], "PhaseList(space_groups=...)[id].point_group")
+            cmp("getitem-name", [pl[nm].point_group for nm in names], "PhaseList(space_groups=...)[name].point_group")
+            sub = pl[2:]
+            cmp("slice", sub.point_groups, "PhaseList(space_groups=...)[2:].point_groups", chunk[2:])
+            tup = pl[tuple(names[::2])]
+            st("phaselist:tuple")
+            for i, p in tup:
+                if not same_group(p.point_group, get_point_group(chunk[i])):
+                    fail("phaselist:tuple", f"point group of phase id {i} of PhaseList[(names...)] differs from get_point_group({chunk[i]})",
+                         dict(rep, n=chunk[i]))
+            pl2 = PhaseList([Phase(nm, space_group=n) for nm, n in zip(names, chunk)])
+            cmp("from-list", pl2.point_groups, "PhaseList([Phase(space_group=n), ...]).point_groups")
+            pl3 = PhaseList({i + 3: Phase(nm, space_group=GetSpaceGroup(n)) for i, (nm, n) in enumerate(zip(names, chunk))})
+            cmp("from-dict", pl3.point_groups, "PhaseList({id: Phase(space_group=SpaceGroup)}).point_groups")
+            pl4 = PhaseList(space_groups=chunk[:3], names=names[:3])
+            pl4.add([Phase(nm, space_group=n) for nm, n in zip(names[3:6], chunk[3:6])])
+            pl4.add(PhaseList(space_groups=chunk[6:], names=names[6:]))
+            if k == 0:
+                _ = repr(pl4)
+            cmp("add", pl4.point_groups, "PhaseList.add(list of phases / PhaseList) then .point_groups")
+            cp = pl4.deepcopy()
+            cmp("deepcopy", cp.point_groups, "PhaseList.deepcopy().point_groups")
+            # space groups and the matching point groups (by name / by object) given together
+            pl5 = PhaseList(space_groups=chunk, names=names,
+                            point_groups=[get_point_group(n).name if i % 2 and get_point_group(n).name in gnames
+                                          else get_point_group(n) for i, n in enumerate(chunk)])
+            cmp("space-and-point-groups", pl5.point_groups, "PhaseList(space_groups=..., point_groups=<the matching ones>).point_groups")
+            st("phaselist:space-and-point-groups-kept")
+            if [s.number if s is not None else None for s in pl5.space_groups] != chunk:
+                fail("phaselist:space-and-point-groups-kept", "PhaseList(space_groups=..., point_groups=<the matching ones>) lost a space group",
+                     dict(rep, got=[s.number if s is not None else None for s in pl5.space_groups]))
+            # crystal map
+            pid = np.array([i % 10 for i in range(30)])
+            rot = Rotation.random(30)
+            xmap = CrystalMap(rotations=rot, phase_id=pid, x=np.arange(30) % 6, y=np.arange(30) // 6, phase_list=pl)
+            cmp("crystalmap-phases", [xmap.phases[i].point_group for i in range(10)], "CrystalMap(phase_list=...).phases[id].point_group")
+            cmp("crystalmap-orientations", [xmap[nm].orientations.symmetry for nm in names], "CrystalMap[name].orientations.symmetry")
+            cmp("crystalmap-phases-in-data", [xmap[nm].phases_in_data[i].point_group for i, nm in enumerate(names)],
+                "CrystalMap[name].phases_in_data[id].point_group")
+            cm2 = xmap.deepcopy()
+            cmp("crystalmap-deepcopy", [cm2.phases[nm].point_group for nm in names], "CrystalMap.deepcopy().phases[name].point_group")
+        except Exception as e:  # noqa
+            fail("phaselist:exception", f"a PhaseList / CrystalMap route raised {type(e).__name__}: {e}", rep)
+
+
+def name_stratum():
+    """a phase given the NAME of a point group (string, or integer for all-digit names; constructor, setter, PhaseList)
+    must get the named group of that name"""
+    from orix.crystal_map import PhaseList
+    by_name = {}
+    for g in S._groups:
+        by_name.setdefault(g.name, []).append(g)
+    st("names-distinct")
+    if len(by_name) != len(S._groups) or len(S._groups) != 38:
+        fail("names-distinct", "the named point groups do not carry 38 distinct names", {"names": [g.name for g in S._groups]})
+    for k, g in enumerate(S._groups):
+        nm = g.name
+        vals = [nm] + ([int(nm)] if nm.isdigit() else [])
+        for v in vals:
+            route = ["ctor", "setter", "phaselist", "setter-over-space-group"][k % 4] if isinstance(v, str) else "int"
+            st("phase-name:" + route)
+            try:
+                if route in ("ctor", "int"):
+                    got = Phase(point_group=v).point_group
+                elif route == "setter":
+                    p = Phase(point_group=S._groups[(k + 5) % 38])
+                    p.point_group = v
+                    got = p.point_group
+                elif route == "phaselist":
+                    got = PhaseList(point_groups=[S._groups[(k + 7) % 38].name, v], names=["a", "b"])["b"].point_group
+                else:
+                    p = Phase(space_group=1 + (k * 6) % 230)
+                    p.point_group = v
+                    got = p.point_group
+            except Exception as e:  # noqa
+                got = None
+            if not (same_group(got, g) and got.name == nm):
+                fail(f"phase-name:{nm}", f"a phase given point group name {v!r} ({route}) does not get the named group {nm}",
+                     {"value": v, "route": route, "got": None if got is None else gjson(got)})
+
+
+def oracle():
+    from common import rng
+    R = rng(P.get("seed", 0))
+    quick = P.get("tier", "quick") == "quick"
+    objs = named_objects()
+    snap = [(g, g.name, np.array(g.data, float).copy(), np.array(g.improper).copy(), g.shape) for g in objs]
+    # histories: queries on the derived groups of the axis-setting variants BEFORE the named groups are queried, then the
+    # named groups, then the derived groups again (a cache keyed by the class name would be filled by one and read by the other)
+    first = ["312", "1m1", "121", "m11", "211", "-6m2", "mm2", "-42m", "321", "3m"]   # axis-setting variants first
+    for g in sorted(reversed(objs), key=lambda x: first.index(x.name) if x.name in first else len(first)):
+        check_chain(g, "derived-first")
+    for g in objs:
+        check_plain(g, "after-derived")
+    for g in objs:
+        check_chain(g, "derived-after-named")
+    name_stratum()
+    lattice_stratum(R, 2 if quick else len(LATTICE_MODES))
+    phaselist_stratum(R)
+    # history: none of the uses above may have changed a module-level group
+    for g, nm, dat, imp, shp in snap:
+        st("history-unchanged")
+        if not (g.name == nm and g.shape == shp and np.array_equal(np.asarray(g.data, float), dat) and np.array_equal(np.asarray(g.improper), imp)):
+            fail(f"history-mutated:{nm}", f"module-level point group {nm} was changed by queries / phase construction",
+                 {"group": nm, "before": {"q": dat.reshape(-1, 4).tolist(), "improper": imp.reshape(-1).astype(int).tolist()},
+                  "after": gjson(g)})
+    emit({"fails": fails, "strata": strata})
+
+
+if isinstance(P, dict) and P.get("mode") == "oracle":
+    oracle()
+    raise SystemExit(0)
+
+# ====================================================================== dump for the Coq correspondence
 groups = []
 for g in S._groups:
     d = dump(g)
